@@ -3,6 +3,7 @@
 from hypothesis import strategies as st
 
 from pv import framing, gen, model, pins
+from pv import core
 from pv.core import Fail, Res, Sub
 from pv.checks.c09 import ref_masks
 
@@ -20,6 +21,7 @@ ASSUMPTIONS = ["the constellation name string in the metadata is pyrtcm vocabula
 
 
 def o_msm(case):
+    core.note_input(len(case.get("payload", "")) // 2 + 1000)  # one message and its attribute names: a bounded amount of helper work
     from pv.core import diagnostics
 
     with diagnostics(bool(case.get('diag'))):
@@ -112,6 +114,7 @@ def plan_msm(tier, shard, nshards):
 
 
 def o_vtec(case):
+    core.note_input(len(case.get("payload", "")) // 2 + 1000)  # one message and its attribute names: a bounded amount of helper work
     from pv.core import diagnostics
 
     with diagnostics(bool(case.get('diag'))):
@@ -169,6 +172,7 @@ def _s_vtec(tier):
 
 
 def o_none(case):
+    core.note_input(len(case.get("payload", "")) // 2 + 1000)  # one message and its attribute names: a bounded amount of helper work
     from pv.core import diagnostics
 
     with diagnostics(bool(case.get('diag'))):
